@@ -9,7 +9,8 @@ Model AST
   block    := [stmt]
   stmt     := ('assign', [chain], op, [exp]) | ('call', chain) | ('print', arg) | ('do', block)
             | ('while', exp, block) | ('repeat', block, exp) | ('if', [(exp, block)], block|None)
-            | ('shortif', exp, block, block|None) | ('fornum', name, exp, exp, exp|None, block)
+            | ('shortif', exp, block, block|None)  (else-block [] = an `else` with nothing after it)
+            | ('ifdo', exp, block)  (`if (c) do ... end`) | ('fornum', name, exp, exp, exp|None, block)
             | ('forin', [name], [exp], block) | ('function', [name], name|None, body)
             | ('localfunction', name, body) | ('local', [name], [exp]|None) | ('goto', name)
             | ('label', name) | ('break',) | ('return', [exp]|None)
@@ -263,6 +264,11 @@ class _Gen:
         if k == 'simple':
             return self.simple_stmt(d, vararg, no_paren_head=bool(oneline), allow_print=scoped_ok)
         oneline = sub
+        if k == 'if' and ch.chance(12) and not oneline and self.scope_depth == 0 and 'if_do' not in self.cfg.avoid:
+            # `if (cond) do ... end`: an accident of PICO-8's short-if preprocessing that picotool's parser
+            # deliberately accepts as an ordinary if
+            self.tags.add('if_do')
+            return ('ifdo', self.exp(d - 1, vararg), self.block(d - 1, in_loop, vararg))
         if k == 'if':
             pairs = [(self.exp(d - 1, vararg), self.block(d - 1, in_loop, vararg, oneline=oneline))]
             for _ in range(ch.weighted([(160, 0), (50, 1), (14, 2)])):
@@ -284,6 +290,10 @@ class _Gen:
                     els = self.block(d - 1, in_loop, vararg, oneline='direct')
                     if not els:
                         els = None
+                elif ch.chance(14) and body[-1][0] not in ('shortif', 'print') and 'dangling_else' not in self.cfg.avoid:
+                    # PICO-8 (and picotool's parser, explicitly) accept an `else` with nothing after it
+                    els = []
+                    self.tags.add('dangling_else')
             finally:
                 self.scope_depth -= 1
             return ('shortif', cond, body, els)
@@ -574,6 +584,14 @@ class _Render:
                 self.depth += 1
                 self.toks[-1].opens = True
                 self.block(s[2])
+            self.kw(b'end', closer=True)
+        elif k == 'ifdo':
+            self.kw(b'if')
+            self.emit(b'(', opens=True)
+            self.exp(s[1])
+            self.emit(b')', closer=True)
+            self.kw(b'do', opens=True)
+            self.block(s[2])
             self.kw(b'end', closer=True)
         elif k == 'shortif':
             self.scope += 1
